@@ -16,9 +16,9 @@ import (
 // ---- C16: matcher semantics of Select / LabelNames / LabelValues ----
 
 var (
-	c16Names  = []string{"__name__", "job", "s", "odd", "env", "zone", "nosuch"}
+	c16Names  = []string{"__name__", "job", "s", "odd", "env", "zone", "nosuch", "id", "id"}
 	c16Values = []string{"", "m", "a", "b", "y", "0", "1", "2", "3", "prod", "dev", "eu-1", "eu-2", "us", "zz"}
-	c16Regex  = []string{"", ".*", ".+", "a|b", "a|", "|b", "(a|b)", "[0-3]", "1|2|7", ".*1", "eu-.*", "eu-.+", "eu-[12]", "(?i:PROD)", "p.*|d.*", "m", "y?", ".", "..+", "prod|dev|", "[^a]*"}
+	c16Regex  = []string{"", ".*", ".+", "a|b", "a|", "|b", "(a|b)", "[0-3]", "1|2|7", ".*1", "eu-.*", "eu-.+", "eu-[12]", "(?i:PROD)", "p.*|d.*", "m", "y?", ".", "..+", "prod|dev|", "[^a]*", "v0.*", "v03.|v06.", "v0[0-9]+"}
 )
 
 // genMatchers draws a matcher list (1-4 matchers, possibly several on one name).
